@@ -44,7 +44,11 @@ unsigned char nondet_uchar(void);
   (v).data = (uint8_t*)malloc((v).size ? (v).size : 1); __CPROVER_assume((v).data != 0);
 #endif
 /* validity of a vector in the abstract container model: storage object of cap elements, size <= cap */
+#ifdef VERIF_LEMMA
+#define VEC_VALID(v) ((v).size <= (v).cap && (v).data != 0)
+#else
 #define VEC_VALID(v) ((v).size <= (v).cap && (v).data != 0 && __CPROVER_rw_ok((v).data, (v).cap * sizeof(*(v).data)))
+#endif
 #define RANGE_OK(p, e) (__CPROVER_same_object(p, e) && (p) <= (e) && __CPROVER_r_ok(p, (size_t)((e) - (p))))
 /* stub side: a fresh vector of n elements with arbitrary contents */
 #define FRESH_VEC(v, n) \
